@@ -430,6 +430,19 @@ def arange(ctx, n, backend="numpy"):
     return SArr((V.simp(V.vmax(0, n)),), lambda ix: ix[0], DType("int64"), backend)
 
 
+def arange_range(ctx, start, stop, step=1, backend="numpy"):
+    """np.arange(start, stop[, step]) for integers (step a positive Python int)."""
+    from .ctx import Unsupported
+    for v in (start, stop):
+        if isinstance(v, float) or (V.is_sym(v) and not z3.is_int(v)):
+            raise Unsupported("np.arange over non-integers (length depends on rounding)")
+    if not isinstance(step, int) or isinstance(step, bool) or step <= 0:
+        raise Unsupported("np.arange step")
+    span = V.sub(stop, start)
+    n = span if step == 1 else V.floordiv_int(ctx, V.add(span, step - 1), step)
+    return SArr((V.simp(V.vmax(0, n)),), lambda ix: V.add(start, V.mul(ix[0], step)), DType("int64"), backend)
+
+
 def real_part(ctx, A: SArr):
     if A.is_complex:
         dt = DType("float32" if A.dtype.name == "complex64" else "float64")
